@@ -36,6 +36,10 @@ type witness struct {
 	// Locality: "" = no remote execution configured. Otherwise remote execution is configured and the value says which
 	// of the command's target and the dependency is marked local = True: "none-local", "target-local", "dep-local", "both-local".
 	Locality string `json:"locality,omitempty"`
+	// The dependency lives in subrepo DepSubrepo ("" = none) and is called DepName ("" = "d"; "t" = the same package and
+	// name as the command's own target, which differs from it by the subrepo only).
+	DepSubrepo string `json:"dep_subrepo,omitempty"`
+	DepName    string `json:"dep_name,omitempty"`
 }
 
 // runsRemotely: the command of the target is executed on a remote worker (core.BuildState.WillRunRemotely(target)).
@@ -278,7 +282,12 @@ func run(state *core.BuildState, w *witness, sh shape) (res result) {
 	if w.Relation == "file" {
 		t.AddSource(core.FileLabel{File: w.Outs[0], Package: w.TPkg})
 	} else {
-		d = core.NewBuildTarget(core.NewBuildLabel(w.DepPkg, "d"))
+		dl := core.NewBuildLabel(w.DepPkg, "d")
+		if w.DepName != "" {
+			dl.Name = w.DepName
+		}
+		dl.Subrepo = w.DepSubrepo
+		d = core.NewBuildTarget(dl)
 		d.IsBinary = sh.binary
 		d.Local = w.Locality == "dep-local" || w.Locality == "both-local"
 		for i, o := range w.Outs {
@@ -749,6 +758,24 @@ outer:
 									}
 								}
 							}
+						}
+					}
+				}
+			}
+		}
+	}
+	// Dependencies in a subrepo, including one that has the package and the name of the command's own target.
+	for _, o1 := range okOuts {
+		for _, tPkg := range []string{"t", ""} {
+			for _, name := range []string{"d", "t"} {
+				for _, sh := range shapes {
+					if sh.nOuts != 1 || sh.ep {
+						continue
+					}
+					for _, rel := range []string{"src", "dep", "tool", "none"} {
+						for _, seq := range seqs {
+							ref := "///sub//" + tPkg + ":" + name
+							emit(witness{Seq: seq, Shape: sh.name, Relation: rel, DepPkg: tPkg, TPkg: tPkg, Outs: []string{o1}, Ref: ref, Command: "$(" + seq + " " + ref + ")", DepSubrepo: "sub", DepName: name})
 						}
 					}
 				}
